@@ -17,7 +17,7 @@ def run(idx, rep, tier):
     rep.assumptions = DOMAIN_D
     mods = lib_module_names(idx)        # every loop reachable from a narrow-phase entry point (scope filter), wherever it lives
     loops.r_loop(idx, rep, mods, floor=14)
-    safediv.r_safediv(idx, rep, floor=6)
+    safediv.r_safediv(idx, rep, floor=4)
     misc2.r_basisguard(idx, rep)
     misc2.r_dupcond(idx, rep, [m.name for m in idx.lib_modules()], floor=3)
     unpack.r_unpack(idx, rep, floor=42)
